@@ -1,4 +1,5 @@
 import TIV.Common.Wire
 import TIV.Common.Base64Proofs
 import TIV.C01.Props
+import TIV.C02.Props
 import TIV.C03.Props
